@@ -235,7 +235,109 @@ def run_with_statement(mode):
     return part
 
 
+def run_capi_faults(mode):
+    """The same containment judged at the public C API, where the last call - digital_rf_close_write_hdf5 - has a return
+    value too: every single fault (ENOSPC once, and 'disk stays full') at every file-system operation of one history,
+    driven through native/drf_cdriver.c under the shim (armed through its environment variables).  Samples of calls that
+    returned 0 but are not readable afterwards => some call, the close included, returned non-zero."""
+    import subprocess
+
+    part = core.new_part()
+    st = stage.activate()
+    seed = core.seed()
+    n, d, fc, sc = 10, 3, 1000, 2
+    cfg = rf.Cfg(n=n, d=d, fc=fc, sc=sc, start=rf.first_sample_of_ms(1394333998000, n, d), **U.MODES[mode])
+    ops = [("w", 0, 5), ("w", 7, 6), ("w", 13, 2)]
+    scratch = core.new_scratch()
+    try:
+        datafile = os.path.join(scratch, "data.bin")
+        esc = lambda p_: p_.replace(" ", "\x01")
+        model = rf.Model()
+        model.open_session(cfg)
+        blob = b""
+        per_call = []
+
+        def script(chdir):
+            return ["create %s %s %s %d %d %d %d %d %d %s %d %d %d %d %d" % (
+                esc(chdir), cfg["order"], cfg["kind"], cfg["size"], cfg["sc"], cfg["fc"], cfg["start"], cfg["n"], cfg["d"],
+                cfg["uuid"], cfg["comp"], int(cfg["cks"]), int(cfg["cplx"]), cfg["nsub"], int(cfg["cont"]))] + wlines + ["close"]
+
+        wlines = []
+        for op in ops:
+            g, b, length = rf.op_blocks(op, model.cursor)
+            arr = rf.values_for(cfg, seed, g, b, length)
+            raw = arr.tobytes()
+            wlines.append("write %d %d %s %d %d" % (g[0], length, esc(datafile), len(blob), len(raw)))
+            blob += raw
+            before = set(model.written)
+            model.apply_write(g, b, rf.row_bytes(arr))
+            per_call.append({k: model.written[k] for k in set(model.written) - before})
+        with open(datafile, "wb") as f:
+            f.write(blob)
+
+        def run(top, plan, logfd=-1):
+            chdir = os.path.join(top, cfg["ch"])
+            os.makedirs(chdir)
+            env = dict(os.environ, LD_PRELOAD=os.path.join(st, "fsshim.so"), DRFSHIM_ROOT=top,
+                       DRFSHIM_PLAN="%d -1 -1 0 %d -1 %d %d 0 0 1394400000" % (logfd, plan[0], plan[1], plan[2]))
+            p = subprocess.run([os.path.join(st, "drf_cdriver_plain")], input="\n".join(script(chdir)) + "\n", capture_output=True, text=True,
+                               env=env, pass_fds=(logfd,) if logfd >= 0 else (), timeout=120)
+            return p
+
+        # unfaulted run with the operation log, to know how many operations there are
+        top0 = os.path.join(scratch, "base")
+        os.makedirs(top0)
+        logp = os.path.join(scratch, "ops.log")
+        with open(logp, "wb") as lf:
+            p0 = run(top0, (-1, 0, 0), lf.fileno())
+        nops = sum(1 for ln in open(logp, "rb") if ln.startswith(b"O "))
+        out0 = p0.stdout.split()
+        if p0.returncode != 0 or nops < 10 or "X" not in out0:
+            raise core.HarnessError("C-API baseline under the shim failed: rc=%s nops=%d out=%r err=%r" % (p0.returncode, nops, p0.stdout[-300:], p0.stderr[-300:]))
+        for i in range(nops):
+            for persist in (0, 2):
+                top = os.path.join(scratch, "f%d_%d" % (i, persist))
+                os.makedirs(top)
+                p = run(top, (i, 28, persist))
+                lines = [ln.split() for ln in p.stdout.splitlines() if ln[:2] in ("C ", "R ", "X ")]
+                created = [ln for ln in lines if ln[0] == "C"]
+                rcs = [int(ln[1]) for ln in lines if ln[0] == "R"]
+                xrc = [int(ln[1]) for ln in lines if ln[0] == "X"]
+                part["evaluations"] += 1
+                part["transitions"] += nops
+                if created and int(created[0][1]) != 0:
+                    part["outcomes"]["capi:create_refused"] += 1
+                    core.rm(top)
+                    continue
+                obs = crash.Observer(top, cfg)
+                errs, union = obs.observe(dict(model.written), "C API, fault at op %d (%s)" % (i, "disk stays full" if persist else "once"), check_reader=True)
+                accepted = {}
+                for ci, rc_ in enumerate(rcs):
+                    if rc_ == 0:
+                        accepted.update(per_call[ci])
+                lost = sorted(k for k, row in accepted.items() if union.get(k) != row)
+                reported = any(rc_ != 0 for rc_ in rcs) or any(x != 0 for x in xrc) or len(rcs) < len(ops) or not xrc
+                part["outcomes"]["capi:%s:%s" % ("lost" if lost else "nolost", "reported" if reported else "all_calls_returned_0")] += 1
+                case = {"capi_faults": mode, "fault_at": i, "persist": persist}
+                if lost and not reported:
+                    errs.append(({"class": "silent_loss", "api": "C", "persist": bool(persist)},
+                                 "C API, ENOSPC %s at op %d: samples %s of calls that returned 0 are not readable, and every call - the close included - returned 0" % (
+                                     "persistent from" if persist else "once", i, lost[:4])))
+                for k, d_ in errs:
+                    part["violations"].append(core.Violation(dict(k, api="C"), case, d_))
+                part["states"].add(core.canon(("capi", mode, i, persist)))
+                core.rm(top)
+        part["traces"] += 1
+    finally:
+        core.rm(scratch)
+    part["nontrivial"] = part["states"]
+    return part
+
+
 def replay(case):
+    if "capi_faults" in case:
+        return [(v["key"], v["detail"]) for v in run_capi_faults(case["capi_faults"])["violations"]
+                if v["case"].get("fault_at") == case.get("fault_at") and v["case"].get("persist") == case.get("persist")]
     if "with_statement" in case:
         return [(v["key"], v["detail"]) for v in run_with_statement(case["with_statement"])["violations"]]
     os.environ["VERIF_SEED"] = str(case.get("seed", 0))
@@ -254,7 +356,8 @@ def main(tier):
               "the tree is inspected after every rename while the process runs and after it has exited (library exit "
               "handlers included): final-named files valid, only written (index,value) pairs, bytes unchanged since first "
               "seen; samples of calls that returned normally but are not readable => the faulted call or the next call must "
-              "have raised and all later writes must raise.")
+              "have raised and all later writes must raise. The same single-fault sweep (ENOSPC once / disk stays full) is run at the "
+              "public C API through native/drf_cdriver.c, where the closing call has a return value that counts as a report.")
         % (("", "") if tier == "quick" else (", +checksum, +gzip", "; plus all pairs of single faults (bound 2) for one history")),
         assumptions=["faults are injected at libc level in the operation stream of the HDF5 actually linked (system 1.10.8)",
                      "unlink/remove are not faulted (the property lists write, truncate, open/create, mkdir, rename, close)"],
@@ -290,5 +393,7 @@ def main(tier):
     for part in core.pmap(run_schedules, jobs, chunksize=1, isolate=False):
         chk.merge(part)
     for part in core.pmap(run_with_statement, ["gapped", "cont"], chunksize=1):
+        chk.merge(part)
+    for part in core.pmap(run_capi_faults, ["gapped", "cont"], chunksize=1):
         chk.merge(part)
     return chk.finish()
